@@ -1,4 +1,5 @@
 import FatVerif.Proofs.FatImgOps
+import FatVerif.Proofs.FatImgDisjoint
 import FatVerif.Proofs.FsCountOps
 import FatVerif.Props.C03fat
 import FatVerif.Props.C05
@@ -188,6 +189,108 @@ theorem fatwf_preserved_img_truncate (s : DiskSlice) (hs : SliceInv S0 s) (c fue
 
 end programs
 
+/-! ## frame facts for compositions: the chains of the image table
+
+The general lemmas (any view `g`, both vocabularies — the predicate `Chain g a cs` and the list
+`chainFrom g (total + 2) a`) are in `Proofs/FatImgDisjoint.lean` (namespace `FatVerif.FatDisjoint`); here they are
+stated on the image: `tabView fs img` (the decoded FAT clipped to `[0, total+2)`), in the `chainFrom` vocabulary of
+`FileSim.fileChain`, with the views after alloc / free / truncate given as the step lemmas give them
+(`tabView fs' img' = allocLinkV … / freedView …`, `fs'.totalClusters = fs.totalClusters`). -/
+section frame
+open FatVerif.FileSim FatVerif.FatDisjoint
+
+/-- the clipped view inherits `FatWf` from the decoded window -/
+theorem fatWf_tabView {fs : FsState} {sz : Nat} (hg : Geo fs sz) (img : Img)
+    (hw : FatWf (imgTable fs img) fs.totalClusters) : FatWf (tabView fs img) fs.totalClusters := by
+  have e : ∀ c, c < fs.totalClusters + 2 → tabView fs img c = imgTable fs img c :=
+    fun c hc => tabView_eq_view hg img hc
+  have lk : ∀ c n, tabView fs img c = .data n → imgTable fs img c = .data n := by
+    intro c n h
+    by_cases hc : c < fs.totalClusters + 2
+    · rw [← e c hc]; exact h
+    · unfold tabView at h; rw [if_neg hc] at h; cases h
+  obtain ⟨rank, hr⟩ := hw.acyclic
+  refine ⟨fun c n h => hw.link_range c n (lk c n h), ?_, fun a b n ha hb => hw.no_cross a b n (lk a n ha) (lk b n hb),
+    ⟨rank, fun c n h => hr c n (lk c n h)⟩⟩
+  intro c n h
+  have h' := lk c n h
+  rw [e n (hw.link_range c n h').2]
+  exact hw.link_alloc c n h'
+
+variable {fs fs' : FsState} {img img' : Img}
+
+/-- **free_not_in_any_chain**: a free cluster lies on the chain of no other head -/
+theorem free_not_in_any_chain (hw : FatWf (tabView fs img) fs.totalClusters) {a x : Nat}
+    (hf : tabView fs img x = .free) (hne : x ≠ a) : x ∉ chainFrom (tabView fs img) (fs.totalClusters + 2) a :=
+  chainFrom_free_not_mem hw hf hne
+
+/-- **chains_disjoint**: two chains neither of whose heads lies on the other share no cluster -/
+theorem chains_disjoint (hw : FatWf (tabView fs img) fs.totalClusters) {a b : Nat}
+    (hab : a ∉ chainFrom (tabView fs img) (fs.totalClusters + 2) b)
+    (hba : b ∉ chainFrom (tabView fs img) (fs.totalClusters + 2) a) :
+    ∀ x, x ∈ chainFrom (tabView fs img) (fs.totalClusters + 2) a → x ∉ chainFrom (tabView fs img) (fs.totalClusters + 2) b :=
+  chainFrom_disjoint hw hab hba
+
+/-- **alloc_keeps_other_chains**: after `alloc_cluster(prev)` → `c`, the chain of every head `a ≠ c` that does not
+    contain `prev` is the same list -/
+theorem alloc_keeps_other_chains (hw : FatWf (tabView fs img) fs.totalClusters) {prev : Option Nat} {c a : Nat}
+    (htv : tabView fs' img' = allocLinkV (tabView fs img) prev c) (ht : fs'.totalClusters = fs.totalClusters)
+    (hf : tabView fs img c = .free) (hac : a ≠ c)
+    (hp : ∀ p, prev = some p → p ∉ chainFrom (tabView fs img) (fs.totalClusters + 2) a) :
+    chainFrom (tabView fs' img') (fs'.totalClusters + 2) a = chainFrom (tabView fs img) (fs.totalClusters + 2) a := by
+  rw [htv, ht]; exact chainFrom_alloc_other hw hf hac hp
+
+/-- **alloc_extends_chain**: … and the chain that ends in `prev` (an end-of-chain entry) is extended by `c` -/
+theorem alloc_extends_chain (hw : FatWf (tabView fs img) fs.totalClusters) {p c a : Nat}
+    (htv : tabView fs' img' = allocLinkV (tabView fs img) (some p) c) (ht : fs'.totalClusters = fs.totalClusters)
+    (hf : tabView fs img c = .free) (hc1 : 2 ≤ c) (hc2 : c < fs.totalClusters + 2) (hpe : tabView fs img p = .eoc)
+    (hac : a ≠ c) (hlast : (chainFrom (tabView fs img) (fs.totalClusters + 2) a).getLast? = some p) :
+    chainFrom (tabView fs' img') (fs'.totalClusters + 2) a =
+      chainFrom (tabView fs img) (fs.totalClusters + 2) a ++ [c] := by
+  rw [htv, ht]; exact chainFrom_alloc_extend hw hf hc1 hc2 hpe hac hlast
+
+/-- **free_keeps_other_chains**: after the clusters `cs` are freed every chain disjoint from `cs` is the same list -/
+theorem free_keeps_other_chains (hw : FatWf (tabView fs img) fs.totalClusters) {cs : List Nat} {a : Nat}
+    (htv : tabView fs' img' = freedView (tabView fs img) cs) (ht : fs'.totalClusters = fs.totalClusters)
+    (hd : ∀ x ∈ chainFrom (tabView fs img) (fs.totalClusters + 2) a, x ∉ cs) :
+    chainFrom (tabView fs' img') (fs'.totalClusters + 2) a = chainFrom (tabView fs img) (fs.totalClusters + 2) a := by
+  rw [htv, ht]; exact chainFrom_free_other hw hd
+
+/-- **truncate_keeps_other_chains**: after `truncate` at `cur` (tail `t` freed) every chain disjoint from `cur :: t` is
+    the same list -/
+theorem truncate_keeps_other_chains (hw : FatWf (tabView fs img) fs.totalClusters) {cur : Nat} {t : List Nat} {a : Nat}
+    (htv : tabView fs' img' = freedView (updV (tabView fs img) cur .eoc) t) (ht : fs'.totalClusters = fs.totalClusters)
+    (hd : ∀ x ∈ chainFrom (tabView fs img) (fs.totalClusters + 2) a, x ∉ cur :: t) :
+    chainFrom (tabView fs' img') (fs'.totalClusters + 2) a = chainFrom (tabView fs img) (fs.totalClusters + 2) a := by
+  rw [htv, ht]; exact chainFrom_truncate_other hw hd
+
+/-- **truncate_cuts_chain**: … and the chain through `cur` is cut after `cur` -/
+theorem truncate_cuts_chain (hw : FatWf (tabView fs img) fs.totalClusters) {cur : Nat} {pre t : List Nat} {a : Nat}
+    (htv : tabView fs' img' = freedView (updV (tabView fs img) cur .eoc) t) (ht : fs'.totalClusters = fs.totalClusters)
+    (he : chainFrom (tabView fs img) (fs.totalClusters + 2) a = pre ++ cur :: t) :
+    chainFrom (tabView fs' img') (fs'.totalClusters + 2) a = pre ++ [cur] := by
+  rw [htv, ht]; exact chainFrom_truncate_cut hw he
+
+/-- **fatwf re-established** on the clipped view after alloc / free of a head's chain / truncate -/
+theorem fatwf_tabView_alloc (hw : FatWf (tabView fs img) fs.totalClusters) {prev : Option Nat} {c : Nat}
+    (htv : tabView fs' img' = allocLinkV (tabView fs img) prev c) (ht : fs'.totalClusters = fs.totalClusters)
+    (hf : tabView fs img c = .free) (hc1 : 2 ≤ c) (hc2 : c < fs.totalClusters + 2)
+    (hp : ∀ p, prev = some p → tabView fs img p = .eoc) : FatWf (tabView fs' img') fs'.totalClusters := by
+  rw [htv, ht]; exact fatWf_allocLinkV hw prev hf hc1 hc2 hp
+
+theorem fatwf_tabView_free (hw : FatWf (tabView fs img) fs.totalClusters) {n : Nat} {cs : List Nat}
+    (htv : tabView fs' img' = freedView (tabView fs img) cs) (ht : fs'.totalClusters = fs.totalClusters)
+    (hch : Chain (tabView fs img) n cs) (hhead : ∀ a, tabView fs img a ≠ .data n) :
+    FatWf (tabView fs' img') fs'.totalClusters := by
+  rw [htv, ht]; exact fatWf_freedView hw hch hhead
+
+theorem fatwf_tabView_truncate (hw : FatWf (tabView fs img) fs.totalClusters) {cur : Nat} {t : List Nat}
+    (htv : tabView fs' img' = freedView (updV (tabView fs img) cur .eoc) t) (ht : fs'.totalClusters = fs.totalClusters)
+    (hch : Chain (tabView fs img) cur (cur :: t)) : FatWf (tabView fs' img') fs'.totalClusters := by
+  rw [htv, ht]; exact fatWf_truncView hw hch
+
+end frame
+
 /-! ## the statements are not vacuous: a concrete FAT16 image -/
 namespace Ex
 
@@ -243,6 +346,48 @@ example : (run (Table.allocCluster DiskSlice.strm .fat16 (fatSliceOf fs16) (some
 example : FatDev (fatSliceOf fs16) dev ∧ TableOk .fat16 (imgFatBytes fs16 dev.img) 6 ∧
     SliceInv (fatSliceOf fs16) (fatSliceOf fs16) ∧ imgTable fs16 dev.img 7 = .eoc :=
   ⟨dev_ok, table_ok, SliceInv.self (by decide), by decide +kernel⟩
+
+/-! the frame facts on the example: chains 2→3 and 5→7, clusters 4 and 6 free -/
+
+theorem tab16 : ∀ c, c < 8 → FileSim.tabView fs16 img0 c =
+    [FatValue.eoc, .eoc, .data 3, .eoc, .free, .data 7, .free, .eoc].getD c .bad := by decide +kernel
+
+theorem fatwf16 : FatWf (FileSim.tabView fs16 img0) fs16.totalClusters := by
+  have key : ∀ c n, FileSim.tabView fs16 img0 c = .data n → (c = 2 ∧ n = 3) ∨ (c = 5 ∧ n = 7) := by
+    intro c n h
+    have hc : c < 8 := by
+      apply Classical.byContradiction
+      intro hc
+      unfold FileSim.tabView at h
+      rw [if_neg (show ¬ c < fs16.totalClusters + 2 from hc)] at h; cases h
+    rw [tab16 c hc] at h
+    have : c = 0 ∨ c = 1 ∨ c = 2 ∨ c = 3 ∨ c = 4 ∨ c = 5 ∨ c = 6 ∨ c = 7 := by omega
+    rcases this with rfl | rfl | rfl | rfl | rfl | rfl | rfl | rfl <;> first | (cases h; omega) | cases h
+  refine ⟨?_, ?_, ?_, ⟨fun c => 10 - c, ?_⟩⟩
+  · intro c n h; rcases key c n h with ⟨_, rfl⟩ | ⟨_, rfl⟩ <;> decide
+  · intro c n h
+    rcases key c n h with ⟨_, rfl⟩ | ⟨_, rfl⟩
+    · rw [tab16 3 (by decide)]; decide
+    · rw [tab16 7 (by decide)]; decide
+  · intro a b n ha hb
+    rcases key a n ha with ⟨rfl, rfl⟩ | ⟨rfl, rfl⟩ <;> rcases key b _ hb with ⟨rfl, h⟩ | ⟨rfl, h⟩ <;> first | rfl | omega
+  · intro c n h; rcases key c n h with ⟨rfl, rfl⟩ | ⟨rfl, rfl⟩ <;> (dsimp only; omega)
+
+example : FileSim.chainFrom (FileSim.tabView fs16 img0) 8 2 = [2, 3] ∧
+    FileSim.chainFrom (FileSim.tabView fs16 img0) 8 5 = [5, 7] := by decide +kernel
+
+/-- cluster 4 is free, hence on neither chain; the two chains are disjoint -/
+example : 4 ∉ FileSim.chainFrom (FileSim.tabView fs16 img0) (fs16.totalClusters + 2) 5 :=
+  free_not_in_any_chain fatwf16 (by decide +kernel) (by decide)
+
+example : ∀ x, x ∈ FileSim.chainFrom (FileSim.tabView fs16 img0) (fs16.totalClusters + 2) 2 →
+    x ∉ FileSim.chainFrom (FileSim.tabView fs16 img0) (fs16.totalClusters + 2) 5 :=
+  chains_disjoint fatwf16 (by decide +kernel) (by decide +kernel)
+
+/-- after the allocation `alloc_cluster(Some(7))` → 4 of the example above the chain of 5 is `[5, 7, 4]` and the chain
+    of 2 is what it was — as `alloc_extends_chain` / `alloc_keeps_other_chains` say -/
+example : FileSim.chainFrom (allocLinkV (FileSim.tabView fs16 img0) (some 7) 4) 8 5 = [5, 7, 4] ∧
+    FileSim.chainFrom (allocLinkV (FileSim.tabView fs16 img0) (some 7) 4) 8 2 = [2, 3] := by decide +kernel
 
 end Ex
 end FatVerif.C03img
